@@ -25,6 +25,10 @@ MUTANTS = {
     'C19': [('oai211-grouping', 'techlib.py', "ZN=OAI211(C1,C2,A,B)", "ZN=OAI211(A,C2,C1,B)"),
             ('mux41-select', 'techlib.py', "A=MUX21(A1,A2,S0) B=MUX21(A3,A4,S0) Y=MUX21(A,B,S1)", "A=MUX21(A1,A2,S1) B=MUX21(A3,A4,S1) Y=MUX21(A,B,S0)"),
             ('out-index', 'techlib.py', "                    pin_dict[n.name] = (o_idx, True)\n                    o_idx += 1", "                    pin_dict[n.name] = (o_idx, True)")],
+    'C10': [('elim-reader-pin', 'circuit.py', "            in_line.reader_pin = out_reader_pin\n", "            in_line.reader_pin = in_line.reader_pin if out_reader_pin > 1 else out_reader_pin\n"),
+            ('copy-implicit-pins', 'circuit.py', "            Line(c, (d, line.driver_pin), (r, line.reader_pin))", "            Line(c, d, r)"),
+            ('pickle-io-order', 'circuit.py', "        io_nodes = [n.index for n in self.io_nodes]", "        io_nodes = sorted(n.index for n in self.io_nodes)"),
+            ('subst-input-fork-pin', 'circuit.py', "                ll.reader_pin = l.reader_pin\n", "                ll.reader_pin = 0\n")],
 }
 
 
